@@ -1,4 +1,4 @@
-"""C14: strtok_s/wcstok_s call histories vs a reference tokenizer (all strings over {a,b,',',';'} up to N,
+"""C14: strtok_s/wcstok_s call histories vs a reference tokenizer (all strings over {a,b,',',';',0xA7} up to N,
 dmax exact/slack/unterminated, six delimiter sets; thorough: per-call delimiter choice, BFS on states)."""
 import os, sys, json, time, subprocess
 from concurrent.futures import ThreadPoolExecutor
@@ -15,7 +15,7 @@ def build():
 def run(tier, deadline):
     t0 = time.time(); build()
     env = dict(os.environ, CAT_LIB=vbuild.build("prod"))
-    N = 6 if tier == "quick" else 11
+    N = 5 if tier == "quick" else 9
     jobs = []
     for kind in ("str", "wcs"):
         for sh in range(8): jobs.append([kind, str(N), "0", str(sh), "8"])
@@ -23,7 +23,7 @@ def run(tier, deadline):
     viol = {}; internal = []; tot = {"histories": 0, "calls": 0, "states": 0, "transitions": 0}; timed_out = []
     def one(j):
         left = deadline - (time.time() - t0)
-        try: return j, subprocess.run([BIN] + j, capture_output=True, text=True, env=env, timeout=max(5, left))
+        try: return j, subprocess.run([BIN] + j, capture_output=True, text=True, errors="replace", env=env, timeout=max(5, left))
         except subprocess.TimeoutExpired: timed_out.append(j); return j, None
     with ThreadPoolExecutor(16) as ex:
         for j, r in ex.map(one, jobs):
@@ -44,13 +44,13 @@ def run(tier, deadline):
     cov = {"states": max(1, tot["states"]), "transitions": max(1, tot["transitions"]), "traces_validated_against_impl": tot["histories"],
            "samples": ["str 612c62 0 2  (string 'a,b', dmax=len+1, delimiters ',;' on every call)", "wcs 613b3b62 1 0", "str 2c612c 2 2 (unterminated)", "str 612c623b61 0 021 (per-call delimiter sequence)"],
            "evaluations": tot["calls"], "distinct_nontrivial": tot["states"], "string_length_bound": N, "histories": tot["histories"], "calls": tot["calls"],
-           "rule": "every string over {a,b,',',';'} of length 0..N x dmax in {len+1, len+3 (slack), len (unterminated, flush against PROT_NONE)} x delimiter sets {',', ';', ',;', '', 16 chars, 17 chars}; the history strtok(s), strtok(NULL)... is continued until two consecutive NULLs; thorough/branching: every per-call choice among three sets, BFS de-duplicated on (buffer bytes, *ptr offset, *dmaxp); oracle after every call: returned pointer and token text, buffer bytes, *ptr inside the string, *ptr offset + *dmaxp <= original dmax, NULL forever after the end",
+           "rule": "every string over {a,b,',',';',0xA7} of length 0..N x dmax in {len+1, len+3 (slack), len+6 (the tail of an older record with both separators behind the terminator), len (unterminated, flush against PROT_NONE)} x delimiter sets {',', ';', ',;', '', 16 chars, 17 chars, 0xA7, ',' + 0xA7}; the history strtok(s), strtok(NULL)... is continued until two consecutive NULLs; thorough/branching: every per-call choice among three sets, BFS de-duplicated on (buffer bytes, *ptr offset, *dmaxp); oracle after every call: returned pointer and token text, buffer bytes, *ptr inside the string, *ptr offset + *dmaxp <= original dmax, NULL forever after the end",
            "jobs_timed_out": len(timed_out)}
     return common.finish("C14", tier, t0, cov, violations, ["reference tokenizer (20 lines) implements strtok semantics per call"], confirm=confirm, exhaustive=not timed_out)
 
 
 def replay(kv, quiet=False):
     build(); c = kv["case"].split()
-    r = subprocess.run([BIN, "replay"] + c, capture_output=True, text=True, env=dict(os.environ, CAT_LIB=vbuild.build("prod")))
+    r = subprocess.run([BIN, "replay"] + c, capture_output=True, text=True, errors="replace", env=dict(os.environ, CAT_LIB=vbuild.build("prod")))
     if not quiet: sys.stdout.write(r.stdout); sys.stderr.write(r.stderr)
     return r.returncode
